@@ -154,7 +154,7 @@ func corruptions(r *rng.R, root *model.Node, path string) []string {
 			} else if st == model.Resolved && parent.Ref != nil {
 				n = len(parent.Ref.E)
 			}
-			for _, idx := range []string{strconv.Itoa(n), strconv.Itoa(n + 1), "99999999999999999999", "x", "1x", " 1", "one"} {
+			for _, idx := range []string{strconv.Itoa(n), strconv.Itoa(n + 1), "99999999999999999999", "x", "1x", " 1", "one", segs[i].Text + "-", segs[i].Text + "+", segs[i].Text + "/", segs[i].Text + ",", "1-", "1+", "1/", "2*", "1 ", "1:", segs[i].Text + "e", "0-"} {
 				g[i].Text = idx
 				out = append(out, join(g))
 			}
@@ -169,7 +169,7 @@ func corruptions(r *rng.R, root *model.Node, path string) []string {
 }
 
 func randomPathString(r *rng.R) string {
-	alpha := []string{".", "#", "0", "1", "2", "9", "a", "b", "key", "-", "+", "x", "_", " ", "é", "01", "0x1", "é"}
+	alpha := []string{".", "#", "0", "1", "2", "9", "a", "b", "key", "-", "+", "x", "_", " ", "é", "01", "0x1", "é", "/", ",", "*", "#1", "#1", "#0", "#2"}
 	n := r.Range(0, 8)
 	var b strings.Builder
 	for i := 0; i < n; i++ {
